@@ -149,6 +149,28 @@ fn quick_boost(prop: &str) -> f64 {
     }
 }
 
+/// measured on a loaded machine: wall seconds of the unboosted thorough tier -> multiplier, aiming
+/// at roughly 10-20 minutes of fixed work per property on 16 cores
+fn thorough_boost(prop: &str) -> f64 {
+    match prop {
+        "C13" => 10.0,
+        "C17" => 15.0,
+        "C05" => 5.0,
+        "C06" => 5.0,
+        "C08" => 8.0,
+        "C10" => 10.0,
+        "C11" => 15.0,
+        "C12" => 15.0,
+        "C16" => 15.0,
+        "C18" => 15.0,
+        "C15" => 5.0,
+        "C07" => 5.0,
+        "C09" => 8.0,
+        "C04" => 3.0,
+        _ => 1.0,
+    }
+}
+
 impl Ctx {
     pub fn new(prop: &str, tier: Tier, seed: u64, mode: Mode, strict: bool) -> Ctx {
         let known = if strict {
@@ -197,7 +219,7 @@ impl Ctx {
         // The quick counts written in the property modules were sized on a machine shared with a
         // dozen other jobs. `quick_boost` scales them so that a quick run is roughly 30-60 s of
         // fixed work on 16 idle cores (never beyond the thorough count).
-        let n = if self.thorough() { thorough } else { ((quick as f64) * quick_boost(&self.prop)).ceil().min(thorough.max(quick) as f64) as u64 };
+        let n = if self.thorough() { ((thorough as f64) * thorough_boost(&self.prop)).ceil() as u64 } else { ((quick as f64) * quick_boost(&self.prop)).ceil().min(thorough.max(quick) as f64) as u64 };
         ((n as f64) * self.scale).ceil() as u64
     }
 
